@@ -650,6 +650,7 @@ pub fn fixed_violations() -> Vec<(&'static str, String, usize, Vec<&'static str>
         // a never-assigned argument register that a leaf callee neither reads
         // nor writes: the read behind the call is the offending instruction, not the call
         ("garbage-passes-through-a-leaf-call", ".text\nmain:\n    li s0, 7\n    mv a0, s0\n    jal double\n    mv s1, a0\n    add s1, s1, a2\n    mv a0, s1\n    li a7, 1\n    ecall\n    li a7, 10\n    ecall\ndouble:\n    slli a0, a0, 1\n    ret\n".into(), 6, vec!["invalid-use-before-assignment"], Some("a2")),
+        ("garbage-passes-through-a-callee-that-calls-on", "main:\n    li a0, 3\n    jal work\n    add a0, a0, a2\n    li a7, 1\n    ecall\n    li a7, 10\n    ecall\nwork:\n    addi sp, sp, -4\n    sw ra, 0(sp)\n    jal twice\n    lw ra, 0(sp)\n    addi sp, sp, 4\n    ret\ntwice:\n    slli a0, a0, 1\n    ret\n".into(), 3, vec!["invalid-use-before-assignment"], Some("a2")),
         // the return address destroyed in front of the instruction that saves it: the frame code
         // saves and restores the destroyed value faithfully
         ("ra-overwritten-before-it-is-saved", "main:\n    li a0, 5\n    jal ra, f\n    li a7, 1\n    ecall\n    li a7, 10\n    ecall\nf:\n    addi sp, sp, -4\n    li ra, 0\n    sw ra, 0(sp)\n    jal ra, g\n    lw ra, 0(sp)\n    addi sp, sp, 4\n    ret\ng:\n    addi a0, a0, 1\n    ret\n".into(), 9, vec!["overwrite-callee-saved-register", "lost-register-value"], Some("ra")),
